@@ -150,7 +150,7 @@ def _rev(b):
     return int('{:08b}'.format(b)[::-1], 2)
 
 
-def v3_items(bits, r, density, straddle=False, skipbits=True):
+def v3_items(bits, r, density, straddle=False, skipbits=True, bad_skip=False):
     """cut one side's cell stream (time order) into HFEv3 items, sprinkling opcodes between cell
     bytes: ('n',) NOP, ('i',) SETINDEX, ('r', v) SETBITRATE, ('s', k, b) SKIPBITS k then a byte
     whose first k cells (in time) are junk, ('c', b) a byte of eight cells.  Cell bytes are
@@ -164,7 +164,7 @@ def v3_items(bits, r, density, straddle=False, skipbits=True):
     def emit(it):
         nonlocal stored
         items.append(it)
-        stored += {'c': 1, 'n': 1, 'i': 1, 'r': 2, 's': 3}[it[0]]
+        stored += {'c': 1, 'n': 1, 'i': 1, 'r': 2, 's': 3, 'x': 2}[it[0]]
 
     while pos < n:
         if density and r.below(density) == 0:
@@ -176,7 +176,9 @@ def v3_items(bits, r, density, straddle=False, skipbits=True):
             if two and straddle and stored % 256 >= 240:
                 while stored % 256 != 255:
                     emit(('n',))
-            if k == 0:
+            if bad_skip and r.chance(1, 6):
+                emit(('x', r.choice([8, 9, 0x40, 0xEF])))      # SKIPBITS with an operand that is not a bit count: ignored (and reported)
+            elif k == 0:
                 emit(('n',))
             elif k == 1:
                 emit(('i',))
@@ -211,6 +213,8 @@ def v3_bytes(items):
             out.append(_rev(0xF1))
         elif it[0] == 'r':
             out += bytes([_rev(0xF2), _rev(it[1])])
+        elif it[0] == 'x':
+            out += bytes([_rev(0xF3), _rev(it[1])])
         else:
             out += bytes([_rev(0xF3), _rev(it[1]), it[2]])
     return bytes(out)
@@ -220,11 +224,11 @@ def v3_items_text(items):
     return ','.join(':'.join(str(x) for x in it) for it in items) or '-'
 
 
-def hfe_v3_pack(bits, r, density, straddle=False, skipbits=True):
-    return v3_bytes(v3_items(bits, r, density, straddle, skipbits))
+def hfe_v3_pack(bits, r, density, straddle=False, skipbits=True, bad_skip=False):
+    return v3_bytes(v3_items(bits, r, density, straddle, skipbits, bad_skip))
 
 
-def hfe_image(tracks, sides, fm, v3=False, pad_last=True, opcode_rng=None, opcode_density=0, header_overrides=None, straddle=False, skipbits=True, lut_exact=False):
+def hfe_image(tracks, sides, fm, v3=False, pad_last=True, opcode_rng=None, opcode_density=0, header_overrides=None, straddle=False, skipbits=True, lut_exact=False, bad_skip=False):
     """tracks: list (per track) of list (per side) of cell lists"""
     hdr = bytearray(512)
     hdr[:] = b'\xFF' * 512
@@ -251,7 +255,7 @@ def hfe_image(tracks, sides, fm, v3=False, pad_last=True, opcode_rng=None, opcod
         streams = []
         for sd in range(sides):
             if v3 and opcode_rng is not None and opcode_density:
-                s = hfe_v3_pack(hfe_side_bits(per_side[sd], fm), opcode_rng, opcode_density, straddle, skipbits)
+                s = hfe_v3_pack(hfe_side_bits(per_side[sd], fm), opcode_rng, opcode_density, straddle, skipbits, bad_skip)
             else:
                 s = hfe_side_bytes(per_side[sd], fm)
             streams.append(s)
